@@ -13,8 +13,9 @@
                             awaitRotation is woken by the rotation goroutine or by Close)
      C14_rotator_exits      after Close was called the system cannot rest with the rotation
                             goroutine alive
-     C14_racing_calls       every outcome recorded by a call is a result or ErrClosed
-                            (CloseInv2.allowed), in program order
+     C14_racing_calls       every outcome recorded by a call satisfies CloseInv2.allowed (a result
+                            or ErrClosed; that table still lists ErrSealed for StoreLogs, see
+                            the strict form below), in program order
      C14_racing_calls_clean in particular never Panic, never an I/O error through a closed
                             or deleted file, never a metaDB error
      C14_handles_released   after Close and after every call returned, every file handle ever
@@ -26,24 +27,24 @@
    state and runs only when the count reached `retired`; a validated holder of state x keeps
    the finalizers of all states >= x from running, so every handle it can reach is open.
 
-   NOT PROVED (the only remaining gap of C14): C14_racing_calls_strict =
-       forall w progs extra s, single_writer w progs extra -> reach progs extra s ->
-       forall t th res, nth_error (ths s) t = Some th -> t <> length progs -> In res (t_outs th) ->
-         res <> ErrSealed
-   i.e. StoreLogs never finds the tail sealed (CloseInv2.allowed still lists ErrSealed for
-   OStore).  Missing invariant: if the tail of the current open version is sealed then
-   (a) the thread that sealed it is still between its seal and its trigger / its commit
-   (PApp1..PTrig, or PM3 of a tail truncation), or (b) awaitRotate is set, or (c) Close is
-   between closing the await channel and swapping the state (it holds writeMu), or (d) the
-   closed flag is set and the writer is not inside a call past its closed check; and the
-   rotation goroutine keeps the new tail unsealed until it resets awaitRotate.
+     C14_racing_calls_strict the same with CloseThm3.allowed_strict: a result (Ok; NotFound for
+                            GetLog) or ErrClosed and nothing else -- in particular StoreLogs never
+                            finds the tail sealed (C14_no_errsealed)
+   The last two rest on SealInv.Inv4 (inductive, SealStep.inv4_reach): if the tail of the
+   current open version is sealed then (A) awaitRotate is set, or (B) Close is at stage >= 3
+   (it closed the await channel and holds writeMu until the state is swapped), or (C) the
+   closed flag is set and no locking call is past its closed check, or (W) the thread that
+   sealed it is still between the seal and the trigger (PApp1..PTrig) or between the
+   force-seal of a tail truncation and its commit (PM3, classified DTail); and the rotation
+   goroutine keeps the new tail unsealed until it resets awaitRotate.  A writer at its
+   append holds writeMu with awaitRotate = nil on an open current version, which excludes
+   every clause (SealStep.seal_contra).
    The implementation side is judged by the oracles of the sched14 stream (recover(),
-   watchdog, goroutine count, handle accounting, two reopen cycles; an `errsealed` outcome
-   of the implementation would be a tie mismatch only if the model disagreed, and no line
-   of the stream produces it on either side). *)
+   watchdog, goroutine count, handle accounting, two reopen cycles; any outcome other than
+   a result or ErrClosed -- ioerr, metaerr, sealed, err -- is a witness). *)
 From Coq Require Import List Arith Bool Lia.
 From RW Require Import Conc.Sys Conc.Close Conc.CloseInv Conc.CloseInv2 Conc.CloseLive Conc.CloseSafe Conc.CloseReach
-     Conc.CloseThm Conc.CloseThm2.
+     Conc.CloseThm Conc.CloseThm2 Conc.CloseThm3.
 Import ListNotations.
 
 Theorem C14_after_close : forall progs extra s,
@@ -107,6 +108,22 @@ Theorem C14_racing_calls_clean : forall w progs extra s,
     res <> Panic /\ res <> IOErr /\ res <> MetaErr.
 Proof. exact outcomes_clean. Qed.
 Print Assumptions C14_racing_calls_clean.
+
+(* ErrSealed is never recorded: StoreLogs never finds the tail sealed *)
+Theorem C14_no_errsealed : forall w progs extra s,
+  single_writer w progs extra -> reach progs extra s ->
+  forall t th res, nth_error (ths s) t = Some th -> In res (t_outs th) -> res <> ErrSealed.
+Proof. exact no_errsealed_reach. Qed.
+Print Assumptions C14_no_errsealed.
+
+(* every recorded outcome is the call's result or ErrClosed -- nothing else *)
+Theorem C14_racing_calls_strict : forall w progs extra s,
+  single_writer w progs extra -> reach progs extra s ->
+  forall t th, nth_error (ths s) t = Some th -> t <> length progs ->
+    exists ops, nth_error (progs ++ [] :: extra) t = Some (ops ++ t_prog th) /\
+                Forall2 (fun o res => allowed_strict o res = true) ops (t_outs th).
+Proof. exact racing_calls_strict. Qed.
+Print Assumptions C14_racing_calls_strict.
 
 (* Close has been called and every caller is between calls: nothing leaks, nothing is
    closed twice *)
